@@ -162,16 +162,25 @@ end Env
 namespace Env
 open Derive Options
 
-/-- type arguments of `ast::Data<V, F>` / `ast::Fields<F>` read off the printed field type -/
+/-- split the generic arguments of a printed type (`Name<A, B<C, D>>` ↦ `["A", "B<C,D>"]`): commas
+    at bracket depth 1 separate, deeper ones belong to an argument -/
 def typeArgs (tyToks : String) : List String :=
-  let s := String.ofList (tyToks.toList.filter (· != ' '))
-  match s.splitOn "<" with
-  | _ :: rest =>
-      let inner := "<".intercalate rest
-      let inner := String.ofList (inner.toList.reverse.dropWhile (· == '>')).reverse
-      -- top-level comma split (arguments here never nest commas)
-      inner.splitOn ","
-  | _ => []
+  let cs := tyToks.toList.filter (· != ' ')
+  -- drop up to and including the first '<', and the final '>'
+  let inner := ((cs.dropWhile (· != '<')).drop 1).dropLast
+  let rec go (rest : List Char) (depth : Nat) (cur : List Char) (acc : List String) : List String :=
+    match rest with
+    | [] => if cur.isEmpty && acc.isEmpty then [] else acc ++ [String.ofList cur.reverse]
+    | c :: r =>
+        if c == '<' then go r (depth + 1) (c :: cur) acc
+        else if c == '>' then go r (depth - 1) (c :: cur) acc
+        else if c == ',' && depth == 0 then go r depth [] (acc ++ [String.ofList cur.reverse])
+        else go r depth (c :: cur) acc
+  go inner 0 [] []
+
+/-- `Wrapper<…>` ↦ the text between the brackets -/
+def unwrapTy (pre : String) (t : String) : Option String :=
+  if t.startsWith pre && t.endsWith ">" then some (String.ofList ((t.toList.drop pre.length).dropLast)) else none
 
 def sortKvs (kvs : List (String × Val)) : List (String × Val) :=
   kvs.foldr (fun kv acc =>
@@ -202,7 +211,22 @@ partial def entryConv (env : T) (tyName : String) (el : Elem) : Outcome Val :=
   | "syn::Ident", .variant v => .ok (.toks v.ident)
   | "syn::Ident", .typeParam t => .ok (.toks t.ident)
   | "syn::TypeParam", .typeParam t => .ok (.toks t.toks)
-  | n, el => outerRun env n el
+  | "syn::Field", .field f => .ok (.toks f.toks)
+  | "syn::Variant", .variant v => .ok (.toks v.toks)
+  | "Vec<syn::Attribute>", el => .ok (.list (el.attrsOf.map (fun a => .toks a.toks)))
+  | n, el =>
+      match unwrapTy "SpannedValue<" n, unwrapTy "WithOriginal<" n with
+      | some inner, _ =>
+          -- `spanned!`: the inner conversion, its error spanned with the element, the element's span kept
+          (match el.span? with
+           | some sp => ((entryConv env inner el).mapErr (·.withSpan sp)).map (fun v => .spanned v (some sp))
+           | none => .err (Err.custom "SpannedValue entry without a span in the model"))
+      | none, some args =>
+          -- `with_original!`: the inner conversion plus a clone of the element
+          (match typeArgs ("W<" ++ args ++ ">") with
+           | [inner, _] => (entryConv env inner el).map (fun v => .withOrig v el.toks)
+           | _ => .err (Err.custom ("cannot read type arguments of " ++ n)))
+      | none, none => outerRun env n el
 
 partial def runOuter (env : T) (r : ROuter) (el : Elem) : Outcome Val :=
   let o := env.oracle
@@ -268,7 +292,7 @@ partial def runOuter (env : T) (r : ROuter) (el : Elem) : Outcome Val :=
                    let gTy := String.ofList ((memberTy "generics").toList.filter (· != ' '))
                    let stripWrap := fun (pre : String) (t : String) =>
                      if t.startsWith pre && t.endsWith ">" then some (String.ofList ((t.toList.drop pre.length).dropLast)) else none
-                   let v : Outcome Val :=
+                   let base : String → Outcome Val := fun gTy =>
                      match stripWrap "ast::Generics<" gTy with
                      | none => .ok (genericsVal d)                       -- `syn::Generics`: a clone
                      | some pTy =>
@@ -276,6 +300,19 @@ partial def runOuter (env : T) (r : ROuter) (el : Elem) : Outcome Val :=
                          (match stripWrap "ast::GenericParam<" pTy with
                           | none => genericsMirror none d.generics
                           | some tTy => genericsMirror (some (fun t => entryConv env tTy (.typeParam t))) d.generics)
+                   let v : Outcome Val :=
+                     match stripWrap "darling::Result<" gTy, stripWrap "WithOriginal<" gTy with
+                     | some inner, _ =>
+                         -- `impl<T: FromGenerics> FromGenerics for Result<T>`: never fails, holds the outcome
+                         (match base inner with
+                          | .ok v => .ok (.okv v)
+                          | .err e => .ok (.errv e)
+                          | .panic m => .panic m)
+                     | none, some args =>
+                         (match typeArgs ("W<" ++ args ++ ">") with
+                          | [inner, _] => (base inner).map (fun v => .withOrig v d.generics.toks)
+                          | _ => .err (Err.custom "cannot read type arguments"))
+                     | none, none => base gTy
                    [("generics", v)]
                  else []) ++
                 (match r.dataField with
